@@ -120,8 +120,10 @@ class QGauss(object):
         if self.npts is None:
             raise ValueError("Set npts on construction or in this call")
 
-        x1 = xvals.min()
-        x2 = xvals.max()
+        # as python floats: for a table stored in a small integer type
+        # x2 + x1 would wrap around
+        x1 = float(xvals.min())
+        x2 = float(xvals.max())
 
         f1 = (x2 - x1) / 2.0
         f2 = (x2 + x1) / 2.0
